@@ -54,13 +54,13 @@ theorem solve_sound {n : Nat} (l : List (Jump (Fin n) ℚ)) (ξ : Fin n → ℚ)
     simpa using this
   · cases h
 
-theorem network_diag (inp : Input) (α : Nat) (l : List (Jump (Fin inp.n) ℚ))
-    (h : network inp α α = some l) : ∀ a ∈ l, a.e = a.d := by
+theorem network_diag (inp : Input) (u : List ℚ) (l : List (Jump (Fin inp.n) ℚ))
+    (h : network inp u u = some l) : ∀ a ∈ l, a.e = a.d := by
   intro a ha
   unfold network at h
   obtain ⟨x, _, hx⟩ := mapM_mem _ _ _ h a ha
   obtain ⟨k, i, j, dx⟩ := x
-  simp only at hx
+  simp only [mkJump] at hx
   split at hx
   · split at hx
     · cases hx; rfl
@@ -77,13 +77,15 @@ theorem B_swap_diag {n : Nat} (l : List (Jump (Fin n) ℚ)) (h : ∀ a ∈ l, a.
   simp only [Jump.swap, id] at *
   simp [this]
 
-/-- **C02, model level.** A diagonal component returned by the model is the value of the
-    variational functional at a global minimiser: the exact long-time diffusivity. -/
-theorem component_eq_Qmin (inp : Input) (α : Nat) (D : ℚ) (h : component inp α α = some D) :
+/-- **C02, model level.** The quadratic transport form returned by the model for any direction
+    `u` is the value of the variational functional at a global minimiser: the exact long-time
+    diffusivity in that direction. -/
+theorem form_eq_Qmin (inp : Input) (u : List ℚ) (D : ℚ) (h : form inp u u = some D) :
     ∃ (l : List (Jump (Fin inp.n) ℚ)) (ξ : Fin inp.n → ℚ),
-      network inp α α = some l ∧ D = Q l ξ ∧ ∀ η, Q l ξ ≤ Q l η := by
-  unfold component at h
-  cases hl : network inp α α with
+      network inp u u = some l ∧ Stationary l ξ ∧ (l.map Jump.rev).Perm l ∧ (∀ a ∈ l, 0 ≤ a.r) ∧
+      D = Q l ξ ∧ ∀ η, Q l ξ ≤ Q l η := by
+  unfold form at h
+  cases hl : network inp u u with
   | none => simp [hl] at h
   | some l =>
     cases hs : solve inp.n l with
@@ -91,8 +93,8 @@ theorem component_eq_Qmin (inp : Input) (α : Nat) (D : ℚ) (h : component inp 
     | some ξ =>
       simp [hl, hs] at h
       obtain ⟨hp, hr, hst⟩ := solve_sound l ξ hs
-      have hde := network_diag inp α l hl
-      refine ⟨l, ξ, rfl, ?_, fun η => Q_min l hp hr ξ η hst⟩
+      have hde := network_diag inp u l hl
+      refine ⟨l, ξ, rfl, hst, hp, hr, ?_, fun η => Q_min l hp hr ξ η hst⟩
       rw [Q_stationary_eq l hp ξ hst, ← h]
       have hsw : List.map Jump.swap l = l := B_swap_diag l hde
       have hd0 : (List.map (fun a => a.r * a.d * a.e) l).sum / 2 = D0 l := by
@@ -103,6 +105,13 @@ theorem component_eq_Qmin (inp : Input) (α : Nat) (D : ℚ) (h : component inp 
         intro a ha
         rw [hde a ha]; ring
       rw [← hd0, hsw]
+
+/-- Diagonal tensor components are the exact diffusivity along the lattice axes. -/
+theorem component_eq_Qmin (inp : Input) (α : Nat) (D : ℚ) (h : component inp α α = some D) :
+    ∃ (l : List (Jump (Fin inp.n) ℚ)) (ξ : Fin inp.n → ℚ),
+      network inp (unit inp.dim α) (unit inp.dim α) = some l ∧ D = Q l ξ ∧ ∀ η, Q l ξ ≤ Q l η := by
+  obtain ⟨l, ξ, h1, _, _, _, h2, h3⟩ := form_eq_Qmin inp _ D h
+  exact ⟨l, ξ, h1, h2, h3⟩
 
 /-- Any two certified solutions (solve vs pseudo-inverse, any gauge) give the same value. -/
 theorem value_indep_of_solution {n : Nat} (l : List (Jump (Fin n) ℚ)) (hp : (l.map Jump.rev).Perm l)
